@@ -242,6 +242,19 @@ class Parser:
         self.i += 1
         return e
 
+    def comma(self):
+        'a separating comma must be followed by whitespace; a comma glued between indices and an index could also be read as a gradient'
+        j = self.i
+        self.i += 1
+        if self.peek() == ' ':
+            return
+        k = j
+        while k > 0 and (self.s[k - 1].isalnum()):
+            k -= 1
+        if self.peek().isalnum() and k > 0 and self.s[k - 1] == '_':
+            self.other('comma that may be a gradient')
+        raise Reject('R4', 'comma is not followed by whitespace')
+
     def arglist(self, closer, what):
         'comma separated expressions up to the closer (v1); the opener has been consumed'
         args = []
@@ -251,9 +264,7 @@ class Parser:
         while True:
             args.append(self.expr(closer + ','))
             if self.peek() == ',':
-                self.i += 1
-                if self.peek() != ' ':
-                    raise Reject('R4', 'comma is not followed by whitespace')
+                self.comma()
                 continue
             break
         if self.peek() != closer:
@@ -446,9 +457,7 @@ class Parser:
                 e = self.expr('),')
                 subs.append([name, idx, e])
                 if self.peek() == ',':
-                    self.i += 1
-                    if self.peek() != ' ':
-                        raise Reject('R4', 'comma is not followed by whitespace')
+                    self.comma()
                     self.ws()
                     continue
                 break
